@@ -474,7 +474,10 @@ StrRead(it, kind, advance) ==
             \* having allocated in proportion to what arrived
             /\ Use(IntU + supplied,
                    IF "PeerSizedAlloc" \in Bug THEN declared ELSE 2 * supplied, 1)
-            /\ End("error", it.p # "two62") /\ Keep(<<budget, pc, ii, capx>>)
+            \* (a prefix one larger than the body is only certain to run out of data
+            \*  when nothing follows; otherwise the decoder may resynchronise or not)
+            /\ End("error", it.p # "two62" /\ (it.p # "over" \/ IsLast))
+            /\ Keep(<<budget, pc, ii, capx>>)
        ELSE /\ Use(IntU + declared, 2 * declared, 1)
             /\ Keep(<<status, strict, capx>>) /\ advance
             /\ budget' = IF kind = "budget" THEN budget - declared ELSE budget
@@ -611,7 +614,7 @@ TextStep ==
   /\ scn.fam \in {"text", "watch"} /\ status = "run"
   /\ UNCHANGED <<scn, pc, lastv, left, budget, capx, depth>>
   /\ IF HasItem
-     THEN /\ ii' = ii + 1 /\ Keep(<<status, strict>>)
+     THEN /\ ii' = ii + 1
           /\ IF "LoneQuotePanic" \in Bug /\ scn.ep \in {"ImportSecSessionInfo", "ImportSessionInfoAttributes"}
                 /\ Item.c = "quote" /\ ii > 1 /\ scn.items[ii - 1].c = "eq"
              THEN status' = "panic" /\ strict' = FALSE /\ Use(1, 1, 1)
